@@ -261,3 +261,80 @@ func c01classify(c *Ctx) {
 	sort.Strings(bad)
 	c.R.Check(len(bad) == 0 && len(preds) >= 5, rule, "breaker acceptability predicates#classification", "acceptability predicates compare the error with sentinels only through errors.Is / errors.As / errorx.In (identity comparison misses wrapped errors)", "-", fmt.Sprintf("%d predicates; %s", len(preds), strings.Join(bad, "; ")), bad, len(preds))
 }
+
+// c01promiseUsers (C01.R12, round 8): every user of Allow + Promise in the module accounts exactly once. For each
+// function outside core/breaker that calls Breaker.Allow/AllowCtx: on every path on which the returned error is nil
+// the promise is resolved (Accept or Reject) exactly once on EVERY exit — including the panic exit of any call made
+// between the admission and the resolution (the request itself: an http.Client.Do with a custom RoundTripper, a
+// handler, a driver call). Straight-line "do the call, then resolve" code never records a call that panicked: the
+// window has one admission without an outcome and sustained panics never open the breaker.
+func c01promiseUsers(c *Ctx) {
+	rule := "C01.R12"
+	isAllow := func(cc *ssa.CallCommon) bool {
+		return cc.IsInvoke() && (cc.Method.Name() == "Allow" || cc.Method.Name() == "AllowCtx") && cc.Method.Pkg() != nil && cc.Method.Pkg().Path() == mod+brkPkg
+	}
+	quiet := map[string]bool{"fmt": true, "strconv": true, "strings": true, "errors": true, "time": true, "sync/atomic": true, "sync": true}
+	n := 0
+	for _, pk := range c.P.Pkgs {
+		rel := strings.TrimPrefix(pk.PkgPath, mod)
+		if rel == brkPkg {
+			continue
+		}
+		for _, fn := range c.P.AllFuncs(rel) {
+			if !callsInBody(fn, isAllow) {
+				continue
+			}
+			n++
+			ps := c.paths(rule, fn, px.Config{MayPanic: func(ci *px.CallInfo) bool {
+				if ci.Builtin != "" {
+					return false
+				}
+				if o := ci.Obj(); o != nil {
+					if o.Pkg() != nil && (o.Pkg().Path() == mod+brkPkg || quiet[o.Pkg().Path()]) {
+						return false
+					}
+					if o.Name() == "Error" || o.Name() == "StatusText" || o.Name() == "WriteHeader" || o.Name() == "Header" {
+						return false
+					}
+					// go-zero's own straight-line code is not modelled as panicking (§2.6); user code is reached through
+					// interface methods, function values and library entry points that call back (an http.Client.Do)
+					if ci.Method == nil && o.Pkg() != nil && strings.HasPrefix(o.Pkg().Path(), mod) {
+						return false
+					}
+				}
+				return true
+			}})
+			allow := func(e *px.Event) bool {
+				return e.Kind == px.EvCall && e.Call.Method != nil && (e.Call.Method.Name() == "Allow" || e.Call.Method.Name() == "AllowCtx") && e.Call.Method.Pkg() != nil && e.Call.Method.Pkg().Path() == mod+brkPkg
+			}
+			resolve := func(e *px.Event) bool {
+				return e.Kind == px.EvCall && e.Call.Method != nil && (e.Call.Method.Name() == "Accept" || e.Call.Method.Name() == "Reject") && e.Call.Method.Pkg() != nil && e.Call.Method.Pkg().Path() == mod+brkPkg
+			}
+			c.forall(rule, funcDisplay(fn)+"#promise", "an admitted call (Allow returned a nil error) resolves its promise exactly once on every exit, the panic exits of the calls made in between included", fn, ps, func(p *px.Path) (bool, string) {
+				a := p.First(allow)
+				if a == nil || p.Exit == px.ExitCut {
+					return true, ""
+				}
+				es := findExtract(p, a.Res, 1)
+				if es == nil || p.Abs(es).K != px.Nil {
+					if p.Abs(es).K == px.NonNil && p.Count(resolve) != 0 {
+						return false, "a rejected call resolves a promise"
+					}
+					return true, ""
+				}
+				if po := p.PanicOrigin(); po != nil && po.Seq < a.Seq {
+					return true, ""
+				}
+				if k := p.Count(resolve); k != 1 {
+					how := "returns"
+					if p.Exit == px.ExitPanic {
+						how = "panics"
+					}
+					return false, fmt.Sprintf("the promise is resolved ×%d on a path that %s after the admission: the call is not recorded exactly once (a panic counts as a failure)", k, how)
+				}
+				return true, ""
+			})
+		}
+	}
+	c.R.Min(rule, 1, "rest/handler.BreakerHandler's serving closure")
+}
